@@ -648,7 +648,20 @@ func constants(repo string) {
 	for _, k := range names {
 		rows = append(rows, fmt.Sprintf("(%s%%string, %d)", strconv.Quote(k), caps[k]))
 	}
-	fmt.Fprintf(&out, "Definition gen_chan_caps : list (string * N) := [%s].\n", strings.Join(rows, "; "))
+	// the obligations look the capacities up by field name: when a field the models name is not there
+	// (renamed, or no longer made with a literal capacity) the shape is unrecognised and the table is
+	// withheld, which the check reports as "translator tie unavailable", not as a broken obligation
+	missingChan := ""
+	for _, k := range []string{"msgChan", "activeMsgChan", "activeMsgCompleteChan", "reissuePackChan"} {
+		if _, ok := caps[k]; !ok {
+			missingChan += " " + k
+		}
+	}
+	if missingChan != "" {
+		fail("chan_caps", "connection channel field(s) not found with a literal capacity:"+missingChan)
+	} else {
+		fmt.Fprintf(&out, "Definition gen_chan_caps : list (string * N) := [%s].\n", strings.Join(rows, "; "))
+	}
 	secs := func(recv, fn string) (int64, bool) {
 		fd := findFunc(svc, recv, fn)
 		if fd == nil {
